@@ -12,7 +12,9 @@ so "which core runs this op" is known by construction, independently of snaxc/ut
   ["view", cls, ref, off]            memref.subview, 4 elements; off = ["c", k] | ["iv", mul]   (neutral)
   ["copy", cls, src, dst]            memref.copy                                               (data mover)
   ["gen", flavor, cls, [ins], out]   flavor 0: linalg.generic with library_call, 1: plain linalg.generic,
-                                     2: dart.operation on snax_alu, 3: dart.schedule on snax_gemmx (compute)
+                                     2: dart.operation on snax_alu, 3: dart.schedule on snax_gemmx (compute; body without kernel op),
+                                     4..14: dart regions with a kernel op in the inner dart.generic, see DART_KERNELS
+                                     (compute, or data mover for extension kernels on snax_xdma)
   ["use", cls, ref]                  "test.op"(memref)                                          (neutral)
   ["op", iref]                       "test.op"(index) -> index                                  (neutral)
   ["call", k, iref]                  func.call @ext<k>(index)                                   (neutral)
@@ -36,6 +38,26 @@ BIG = "memref<16xi32>"
 DYN = -9223372036854775808
 
 DM, COMPUTE, NEUTRAL = "dm", "compute", "neutral"
+
+
+# dart streaming regions whose inner dart.generic holds a kernel op: flavor -> (op, accelerator, kernel, in type, out type, core kind).
+# On compute accelerators every one of them is a compute op. On snax_xdma a region is a data-mover op iff its kernel is provided by a
+# streamer extension (kernel.add i32,i32->i32; kernel.rescale i32->i8 / i8->i32), otherwise a compute op (documented intent of
+# dispatching_rules.py). Flavors >= XDMA_FLAVOR_MIN need a context with snax_xdma registered.
+DART_KERNELS = {
+    4: ("dart.operation", "snax_alu", "add", "i32", "i32", COMPUTE),
+    5: ("dart.schedule", "snax_gemmx", "add", "i32", "i32", COMPUTE),
+    6: ("dart.operation", "snax_gemmx", "rescale", "i32", "i8", COMPUTE),
+    7: ("dart.schedule", "snax_alu", "mul", "i32", "i32", COMPUTE),
+    8: ("dart.schedule", "snax_gemmx", "rescale", "i8", "i32", COMPUTE),
+    9: ("dart.operation", "snax_alu", "add", "i8", "i8", COMPUTE),
+    10: ("dart.operation", "snax_xdma", "add", "i32", "i32", DM),
+    11: ("dart.schedule", "snax_xdma", "rescale", "i32", "i8", DM),
+    12: ("dart.operation", "snax_xdma", "rescale", "i8", "i32", DM),
+    13: ("dart.operation", "snax_xdma", "mul", "i32", "i32", COMPUTE),
+    14: ("dart.schedule", "snax_xdma", "add", "i8", "i8", COMPUTE),
+}
+XDMA_FLAVOR_MIN = 10
 
 
 def small_type(off):
@@ -172,7 +194,7 @@ def count_loops(stmts):
 
 
 C14_FLAGS = dict(w_copy=4, w_gen=4, w_view=2, w_alloc=1, w_use=1, w_op=2, w_call=1, w_bar=1, w_dealloc=0, w_for=3, w_if=3,
-                 w_region=1, flavors=[0, 0, 1, 2, 3])
+                 w_region=1, flavors=[0, 0, 1, 2, 3, 4, 5, 5, 6, 6, 7, 8, 9, 10, 11, 12, 13, 14])
 C13_FLAGS = dict(w_copy=6, w_gen=6, w_view=3, w_alloc=2, w_use=1, w_op=0, w_call=0, w_bar=1, w_dealloc=2, w_for=8, w_if=4,
                  w_region=0, w_scoped=2, w_diamond=3, flavors=[0, 0, 1, 2, 3])
 
@@ -337,11 +359,44 @@ def build(recipe, func_name="main") -> Built:
                     _, flavor, _, ins, o = s
                     iv_ = [pool[r % len(pool)] for r in ins] or [pool[0]]
                     ov_ = pool[o % len(pool)]
-                    t = tag(COMPUTE, ["generic_lib", "generic", "dart_operation", "dart_schedule"][flavor % 4])
+                    dk = DART_KERNELS.get(flavor)
+                    if dk is None:
+                        flavor = flavor % 4
+                        t = tag(COMPUTE, ["generic_lib", "generic", "dart_operation", "dart_schedule"][flavor])
+                    else:
+                        t = tag(dk[5], f"{dk[0].replace('.', '_')}:{dk[1]}:kernel.{dk[2]}")
                     opnds = ", ".join(v[0] for v in iv_ + [ov_])
                     tys = ", ".join(v[1] for v in iv_ + [ov_])
                     n_all = len(iv_) + 1
-                    if flavor % 4 in (0, 1):
+                    if dk is not None:
+                        opn, acc, kern, ity, oty, this_kind = dk
+                        extra = ""
+                        if opn == "dart.schedule":
+                            extra = (", bounds = [4 : index], tiles = [" + ", ".join(["[4 : index]"] * n_all) + "]")
+                        bargs = ", ".join([f"%g{t}_{i}: !dart.stream<{ity}>" for i in range(len(iv_))] + [f"%g{t}_{len(iv_)}: !dart.stream<{oty}>"])
+                        out.append(f'{pad}"{opn}"({opnds}) <{{patterns = [{", ".join([ID_MAP] * n_all)}], accelerator = "{acc}", '
+                                   f'operandSegmentSizes = array<i32: {len(iv_)}, 1>{extra}}}> ({{')
+                        out.append(f'{pad}^bb0({bargs}):')
+                        if kern == "rescale":
+                            out.append(f'{pad}  %g{t}_r = "dart.generic"(%g{t}_0) <{{library_call = "{acc}"}}> ({{')
+                            out.append(f'{pad}  ^bb1(%g{t}_in: {ity}):')
+                            out.append(f'{pad}    %g{t}_k = "kernel.rescale"(%g{t}_in) {{input_zp = 0 : i32, output_zp = 0 : i32, multiplier = array<i32: 1073741824>, '
+                                       f'shift = array<i8: 30>, min_int = -128 : i32, max_int = 127 : i32, double_round = true}} : ({ity}) -> {oty}')
+                            out.append(f'{pad}    "dart.yield"(%g{t}_k) : ({oty}) -> ()')
+                            out.append(f'{pad}  }}) : (!dart.stream<{ity}>) -> !dart.stream<{oty}>')
+                        else:
+                            second = f"%g{t}_1" if len(iv_) >= 2 else f"%g{t}_0"
+                            out.append(f'{pad}  %g{t}_r = "dart.generic"(%g{t}_0, {second}) <{{library_call = "{acc}"}}> ({{')
+                            out.append(f'{pad}  ^bb1(%g{t}_in: {ity}, %g{t}_in2: {ity}):')
+                            out.append(f'{pad}    %g{t}_k = "kernel.{kern}"(%g{t}_in, %g{t}_in2) : ({ity}, {ity}) -> {oty}')
+                            out.append(f'{pad}    "dart.yield"(%g{t}_k) : ({oty}) -> ()')
+                            out.append(f'{pad}  }}) : (!dart.stream<{ity}>, !dart.stream<{ity}>) -> !dart.stream<{oty}>')
+                        out.append(f'{pad}  "dart.yield"(%g{t}_r) : (!dart.stream<{oty}>) -> ()')
+                        out.append(f'{pad}}}) {{tag = {t} : i32}} : ({tys}) -> ()')
+                        b.features.add("dart_kernel:" + kern)
+                        if acc == "snax_xdma":
+                            b.features.add("xdma_extension_kernel_dm" if this_kind == DM else "xdma_other_kernel_compute")
+                    elif flavor % 4 in (0, 1):
                         lib = ', library_call = "snax_alu"' if flavor % 4 == 0 else ""
                         bargs = ", ".join(f"%g{t}_{i}: i32" for i in range(n_all))
                         out.append(f'{pad}"linalg.generic"({opnds}) <{{indexing_maps = [{", ".join([ID_MAP] * n_all)}], '
@@ -365,7 +420,8 @@ def build(recipe, func_name="main") -> Built:
                         out.append(f'{pad}  }}) : (!dart.stream<i32>) -> !dart.stream<i32>')
                         out.append(f'{pad}  "dart.yield"(%g{t}_r) : (!dart.stream<i32>) -> ()')
                         out.append(f'{pad}}}) {{tag = {t} : i32}} : ({tys}) -> ()')
-                    this_kind = COMPUTE
+                    if dk is None:
+                        this_kind = COMPUTE
             elif k == "op":
                 v = sc.idx[s[1] % len(sc.idx)]
                 t = tag(NEUTRAL, "op")
